@@ -10,6 +10,7 @@ from ..callgraph import CallGraph
 from ..excflow import ExcFlow, LambdaFunc
 from ..tables import tables_of
 from ..mutate import Mutant, in_func
+from .. import guardspec
 
 ID = 'C10'
 EXPLANATION = (
@@ -808,6 +809,63 @@ def rule_r10(prog, res):
     res.floor('R10', 'default fault message templates', n, 2)
 
 
+# ------------------------------------------------------------------ R11
+def rule_r11(prog, res):
+    res.rule('R11', 'the dict envelope is split only after it was checked '
+             'to be a one-key dict; int-like keys never reach positional '
+             'lookup')
+    f = prog.cls('spyne.protocol.dictdoc._base:DictDocument').methods.get(
+        'decompose_incoming_envelope')
+    if f is None:
+        raise AnalysisError('DictDocument.decompose_incoming_envelope',
+                            'not found')
+    n = 0
+    for c in calls_in(f.node):
+        if call_name(c) == 'gen_method_request_string':
+            n += 1
+            guardspec.check(
+                res, 'R11', f, c, 'the extraction of the method name',
+                allowed=[('message in (ProtocolBase.REQUEST, '
+                          'ProtocolBase.RESPONSE)', True),
+                         ('len(doc) == 0', False),
+                         ('message is ProtocolBase.REQUEST', True)],
+                required=[('len(doc) == 1', True),
+                          ('isinstance(doc, dict)', True)],
+                key='DictDocument.decompose_incoming_envelope|method-name')
+    res.floor('R11', 'method-name extraction sites', n, 1)
+    # odict.get must test membership: __getitem__ treats ints as positions
+    od = prog.cls('spyne.util.odict:odict')
+    g = od.methods.get('get')
+    if g is None:
+        raise AnalysisError('odict.get', 'not found')
+    k = 0
+    for sub in walk_no_defs(g.node):
+        if isinstance(sub, ast.Subscript) and unparse(sub.value) == 'self' \
+                and isinstance(sub.ctx, ast.Load):
+            k += 1
+            atoms = guardspec.atoms_at(sub, g.node)
+            ok = ('key in self', True) in atoms
+            where = '%s:%d' % (g.module.relpath, sub.lineno)
+            res.ob('R11', where, 'odict.get: %s under %s' % (unparse(sub),
+                                                             atoms),
+                   'ok' if ok else 'VIOLATED')
+            if not ok:
+                res.finding('R11', 'odict.get|unchecked-index', where,
+                            'odict.get evaluates self[key] without testing '
+                            '"key in self" first: odict.__getitem__ treats '
+                            'an int key as a position, so a document key '
+                            'such as 0 or 99 (YAML mappings allow them) '
+                            'resolves to a declared member or raises '
+                            'IndexError/TypeError instead of being skipped '
+                            'as unknown')
+    res.floor('R11', 'item reads in odict.get', k, 1)
+    from . import c17
+    from ..report import Result
+    res.share('R11', 'the dict envelope is split only after it was checked '
+              'to be a one-key dict; int-like keys never reach positional '
+              'lookup', 'C17', c17.rule_clean_tree, prog, Result)
+
+
 def run(prog, res, tier):
     res.run_rule(rule_r8, prog, res)
     res.run_rule(rule_r7, prog, res)
@@ -818,6 +876,7 @@ def run(prog, res, tier):
     res.run_rule(rule_r3, prog, res, ef, tier)
     res.run_rule(rule_r9, prog, res, ef)
     res.run_rule(rule_r10, prog, res)
+    res.run_rule(rule_r11, prog, res)
     res.run_rule(rule_r4, prog, res, tier)
     res.run_rule(rule_r5, prog, res)
     res.run_rule(rule_r6, prog, res, tier)
@@ -835,6 +894,17 @@ _H = 'spyne/protocol/dictdoc/hier.py'
 _MI = 'spyne/protocol/soap/mime.py'
 
 MUTANTS = [
+    Mutant('envelope-size-unchecked', 'R11', 'fire',
+           'spyne/protocol/dictdoc/_base.py',
+           in_func('DictDocument.decompose_incoming_envelope',
+                   "if not isinstance(doc, dict) or len(doc) != 1:",
+                   "if not isinstance(doc, dict):"), 'missing-guard'),
+    Mutant('odict-get-eafp', 'R11', 'fire', 'spyne/util/odict.py',
+           in_func('odict.get', "        if key in self:\n"
+                   "            return self[key]\n        return default",
+                   "        try:\n            return self[key]\n"
+                   "        except KeyError:\n            return default"),
+           'unchecked-index'),
     Mutant('handler-eager-format', 'R1', 'fire', 'spyne/server/_base.py',
            in_func('ServerBase.get_in_object',
                    'logger.debug("Failed document is: %s", ctx.in_document)',
